@@ -600,7 +600,7 @@ class File(resource.Resource, filepath.FilePath[str]):
         try:
             parsedRanges = self._parseRangeHeader(byteRange)
         except ValueError:
-            log.msg(f"Ignoring malformed Range header {byteRange.decode()!r}")
+            log.msg(f"Ignoring malformed Range header {byteRange.decode('charmap')!r}")
             self._setContentHeaders(request)
             request.setResponseCode(http.OK)
             return NoRangeStaticProducer(request, fileForReading)
